@@ -289,8 +289,26 @@ def _median(c, case):
             def _isone(o):
                 return sc.toz(o) if (sc.isz(o) and z3.is_bool(o)) else sc.toz(sc.eq(o, 1))
 
-            if K > 1:
-                c.witness(f"{tag}: some output voxel can differ from its input voxel", z3.Or(*[z3.Xor(_isone(out[i]), xs[i] == 1) for i in np.ndindex(*shape)]), binc)
+            def _oracle_changes(xb):
+                e = xb
+                for _ in range(reps):
+                    e = _concrete_median(e, pcfg, ks)
+                return bool((e != xb).any())
+
+            cands = []
+            for base, spot in ((0, None), (1, None), (0, 1), (1, 0)):
+                xb = np.full(shape, bool(base))
+                if spot is not None:
+                    xb[tuple(n // 2 for n in shape)] = bool(spot)
+                cands.append(xb)
+            if K > 1 and any(_oracle_changes(xb) for xb in cands):
+                # asked on four concrete candidate inputs (all 0, all 1, a single 1, a single 0) so that the solver only has to evaluate
+                mid = tuple(n // 2 for n in shape)
+                pats = []
+                for base, spot in ((0, None), (1, None), (0, 1), (1, 0)):
+                    pats.append(z3.And(*[xs[i] == (spot if (spot is not None and i == mid) else base) for i in np.ndindex(*shape)]))
+                c.witness(f"{tag}: some output voxel can differ from its input voxel",
+                          z3.And(z3.Or(*pats), z3.Or(*[z3.Xor(_isone(out[i]), xs[i] == 1) for i in np.ndindex(*shape)])), binc)
             else:
                 c.witness(f"{tag}: output 1 reachable", _isone(out[tuple(0 for _ in shape)]), binc)
 
